@@ -491,9 +491,7 @@ def register(I):
             items = as_str_items(I, x, st)
             if len(items) == 0:
                 return 0
-            if all(isinstance(c, int) for c in items):
-                return len("".join(map(chr, items)).encode("utf-8"))
-            return ByteLen(len(items))
+            return byte_len_of(items)
         return umap(f, v)
 
     @reg("String::push_str")
@@ -538,6 +536,199 @@ def register(I):
         for i in range(0, n - m + 1):
             acc = b_or(acc, b_and(*[chr_eq(hay[i + j], needle[j]) for j in range(m)]))
         return acc
+
+    @reg("<impl str>::find")
+    def str_find(I, st, args, info):
+        """byte offset of the first character in the pattern (char, [char; N], &[char] or predicate)"""
+        hay = list(as_str_items(I, args[0], st))
+        pat = args[1]
+        pv = pat if isinstance(pat, (Closure, FnItem)) else deref_all(I, pat, st)
+
+        def hit(c):
+            if isinstance(pv, (Closure, FnItem)):
+                r = I.call1(pv, [c], st)
+                if isinstance(r, Outcomes):
+                    raise Unsupported("panic inside str::find predicate")
+                return r
+            if is_scalar(pv):
+                return chr_eq(c, pv)
+            if isinstance(pv, SliceV):
+                return b_or(*[chr_eq(c, x) for x in pv.elems()])
+            raise Unsupported("str::find with a string pattern")
+        alts = []
+        none_before = True
+        for k, c in enumerate(hay):
+            h = hit(c)
+            g = b_and(none_before, h)
+            if g is not False:
+                alts.append((g, Adt("Option", "Some", [byte_len_of(hay[:k])])))
+            none_before = b_and(none_before, b_not(h))
+            if none_before is False:
+                break
+        if none_before is not False:
+            alts.append((none_before, Adt("Option", "None", [])))
+        return merge_many(alts)
+
+    @reg("<impl str>::rfind")
+    def str_rfind(I, st, args, info):
+        """byte offset of the last character in the pattern"""
+        hay = list(as_str_items(I, args[0], st))
+        pat = args[1]
+        pv = pat if isinstance(pat, (Closure, FnItem)) else deref_all(I, pat, st)
+
+        def hit(c):
+            if isinstance(pv, (Closure, FnItem)):
+                r = I.call1(pv, [c], st)
+                if isinstance(r, Outcomes):
+                    raise Unsupported("panic inside str::rfind predicate")
+                return r
+            if is_scalar(pv):
+                return chr_eq(c, pv)
+            if isinstance(pv, SliceV):
+                return b_or(*[chr_eq(c, x) for x in pv.elems()])
+            raise Unsupported("str::rfind with a string pattern")
+        alts = []
+        none_after = True
+        for k in range(len(hay) - 1, -1, -1):
+            h = hit(hay[k])
+            g = b_and(none_after, h)
+            if g is not False:
+                alts.append((g, Adt("Option", "Some", [byte_len_of(hay[:k])])))
+            none_after = b_and(none_after, b_not(h))
+            if none_after is False:
+                break
+        if none_after is not False:
+            alts.append((none_after, Adt("Option", "None", [])))
+        return merge_many(alts)
+
+    def char_boundaries(I, st, items, off):
+        """byte offset -> [(guard, char index)] and the guard under which it is no char boundary / out of range"""
+        if isinstance(off, Union):
+            res, bad = [], False
+            for g, o in off.alts:
+                r2, b2 = char_boundaries(I, st, items, o)
+                res += [(b_and(g, g2), k) for g2, k in r2]
+                bad = b_or(bad, b_and(g, b2))
+            return res, bad
+        if isinstance(off, ByteLen) and off.items is not None and off.add == 0 and len(off.items) <= len(items) \
+                and same_items(items[:len(off.items)], off.items):
+            return [(True, len(off.items))], False
+        if isinstance(off, int) and all(isinstance(c, int) for c in items):
+            acc = 0
+            for k in range(len(items) + 1):
+                if acc == off:
+                    return [(True, k)], False
+                if k < len(items):
+                    acc += len(chr(items[k]).encode("utf-8"))
+            return [], True
+        t = off.term() if isinstance(off, ByteLen) else (z3.BitVecVal(off, 64) if isinstance(off, int) else off)
+        res, none = [], True
+        acc = z3.BitVecVal(0, 64)
+        for k in range(len(items) + 1):
+            g = z3.simplify(acc == t)
+            g = True if z3.is_true(g) else False if z3.is_false(g) else g
+            if g is not False and (g is True or I.feasible(st.pc, g)):
+                res.append((g, k))
+                none = b_and(none, b_not(g))
+            if k < len(items):
+                acc = acc + utf8_width(items[k])
+        if none is not False and none is not True and not I.feasible(st.pc, none):
+            none = False
+        return res, none
+
+    @reg("<str as Index>::index", "<String as Index>::index", "<impl str>::get_unchecked")
+    def str_index(I, st, args, info):
+        v = deref_all(I, args[0], st)
+        rng = deref_all(I, args[1], st)
+        if isinstance(v, Union) or isinstance(rng, Union):
+            raise Unsupported("str index on a union")
+        if isinstance(v, StrSlice):
+            buf, base, n = v.buf, v.start, len(v)
+            items = tuple(v.chars())
+        else:
+            items = tuple(as_str_items(I, v, st))
+            buf, base, n = SymBuf(items, name="owned"), 0, len(items)
+        if not isinstance(rng, Struct) or rng.ty not in ("RangeTo", "RangeFrom", "Range", "RangeFull"):
+            raise Unsupported("str index with %r" % (rng,))
+        if rng.ty == "RangeFull":
+            return StrSlice(buf, base, base + n)
+        lo = rng.fields[0] if rng.ty in ("RangeFrom", "Range") else 0
+        hi = rng.fields[-1] if rng.ty in ("RangeTo", "Range") else None
+        los, lbad = char_boundaries(I, st, items, lo)
+        his, hbad = char_boundaries(I, st, items, hi) if hi is not None else ([(True, n)], False)
+        alts, bad = [], b_or(lbad, hbad)
+        for g1, a in los:
+            for g2, b in his:
+                g = b_and(g1, g2)
+                if g is False:
+                    continue
+                if a > b:
+                    bad = b_or(bad, g)
+                else:
+                    alts.append((g, StrSlice(buf, base + a, base + b)))
+        outs = Outcomes([(g, x) for g, x in alts] + ([(bad, Panic("byte index is not a char boundary or is out of range", "core::str"))] if bad is not False else []))
+        if len(outs.alts) == 1 and bad is False:
+            return alts[0][1]
+        return outs
+
+    @reg("<Vec as Index>::index", "<[T] as Index>::index", "<impl [T]>::index")
+    def seq_index(I, st, args, info):
+        v = deref_all(I, args[0], st)
+        rng = deref_all(I, args[1], st)
+        if isinstance(v, Union):
+            raise Unsupported("slice index on a union")
+        base = v if isinstance(v, SliceV) else SliceV(tuple(seq_of(I, v, st)))
+        n = len(base)
+
+        def positions(x):
+            """-> [(guard, int)] , out-of-range guard"""
+            if isinstance(x, int):
+                return ([(True, x)], False) if x <= n else ([], True)
+            if isinstance(x, Union):
+                res, bad = [], False
+                for g, y in x.alts:
+                    r2, b2 = positions(y)
+                    res += [(b_and(g, g2), k) for g2, k in r2]
+                    bad = b_or(bad, b_and(g, b2))
+                return res, bad
+            return [(x == z3.BitVecVal(k, x.size()), k) for k in range(n + 1)], z3.UGT(x, z3.BitVecVal(n, x.size()))
+        if not isinstance(rng, Struct):
+            # a single element
+            if isinstance(rng, int):
+                if rng >= n:
+                    raise PanicExc("index out of bounds")
+                return ValRef(base.elems()[rng])
+            raise Unsupported("symbolic element index through Index::index")
+        if rng.ty == "RangeFull":
+            return base
+        lo = rng.fields[0] if rng.ty in ("RangeFrom", "Range") else 0
+        hi = rng.fields[-1] if rng.ty in ("RangeTo", "Range") else n
+        if rng.ty == "RangeInclusive" or rng.ty == "RangeToInclusive":
+            raise Unsupported("inclusive range index")
+        los, lbad = positions(lo)
+        his, hbad = positions(hi)
+        alts, bad = [], b_or(lbad, hbad)
+        for g1, a in los:
+            for g2, b in his:
+                g = b_and(g1, g2)
+                if g is False:
+                    continue
+                if a > b:
+                    bad = b_or(bad, g)
+                else:
+                    alts.append((g, base.sub(a, b)))
+        if bad is False and len(alts) == 1:
+            return alts[0][1]
+        return Outcomes(alts + ([(bad, Panic("range end index out of range for slice", "core::slice"))] if bad is not False else []))
+
+    @reg("Index::index")
+    def any_index(I, st, args, info):
+        v = deref_all(I, args[0], st)
+        if isinstance(v, (StrSlice, StringV)):
+            return str_index(I, st, args, info)
+        if isinstance(v, MapV):
+            raise Unsupported("HashMap index")
+        return seq_index(I, st, args, info)
 
     @reg("<impl str>::replace")
     def str_replace(I, st, args, info):
@@ -947,30 +1138,70 @@ def register(I):
         which = info.path.last()
         it = deref_all(I, args[0], st)
         unordered = isinstance(it, UnorderedIter)
-        cur, items, panics = drive_paths(I, it, st, unordered_ok=True)
-        if panics:
-            raise Unsupported("panic inside iterator adaptor before " + which)
-        st.store, st.pc = cur.store, cur.pc
-        hits = []
-        for idx, x in enumerate(items):
-            r = I.call_inplace(args[1], [x if which == "find_map" or which == "position" else ValRef(x)], st)
-            if which == "find_map":
-                if isinstance(r, Union):
-                    raise Unsupported("symbolic find_map result")
-                if r.variant == "Some":
-                    hits.append(r)
-            else:
-                if r is True:
-                    hits.append(opt_some(x if which == "find" else idx))
-                elif r is not False:
-                    raise Unsupported("symbolic predicate in " + which)
-            if hits and not unordered:
-                break
-        if not hits:
-            return OPT_NONE
-        if unordered and len(hits) > 1 and not all(same(hits[0], h) for h in hits[1:]) and I.hash_order is None:
-            raise Unsupported("result depends on HashMap iteration order (%s with several matches)" % which)
-        return hits[0]
+        paths, panics = drive_multi(I, it, st, unordered_ok=True)
+        results = [(s, p) for s, p in panics]
+
+        def outcomes_of(x, idx, s0):
+            """-> [(St, hit value | None | Panic)] for one element"""
+            res = []
+            arg = x if which in ("find_map", "position") else ValRef(x)
+            for s2, r in I.call_value(args[1], [arg], s0):
+                if isinstance(r, Panic):
+                    res.append((s2, r))
+                elif which == "find_map":
+                    for g, o in alts_of(r):
+                        if g is not True and not I.feasible(s2.pc, g):
+                            continue
+                        s3 = s2 if g is True else s2.fork(g)
+                        res.append((s3, o if o.variant == "Some" else None))
+                else:
+                    hit = opt_some(x if which == "find" else idx)
+                    if r is True:
+                        res.append((s2, hit))
+                    elif r is False:
+                        res.append((s2, None))
+                    else:
+                        for g, o in ((r, hit), (b_not(r), None)):
+                            g = b_simpl(g)
+                            if g is False or not I.feasible(s2.pc, g):
+                                continue
+                            res.append((s2.fork(g), o))
+            return res
+        for cur, items in paths:
+            live = [cur]
+            if unordered:
+                # HashMap iteration: the result must not depend on the order
+                if len(paths) != 1:
+                    raise Unsupported("forked adaptor over a HashMap iterator")
+                hits = []
+                for idx, x in enumerate(items):
+                    o = outcomes_of(x, idx, live[0])
+                    if len(o) != 1 or isinstance(o[0][1], Panic):
+                        raise Unsupported("symbolic predicate over a HashMap iterator in " + which)
+                    live = [o[0][0]]
+                    if o[0][1] is not None:
+                        hits.append(o[0][1])
+                if len(hits) > 1 and not all(same(hits[0], h) for h in hits[1:]) and I.hash_order is None:
+                    raise Unsupported("result depends on HashMap iteration order (%s with several matches)" % which)
+                results.append((live[0], hits[0] if hits else OPT_NONE))
+                continue
+            for idx, x in enumerate(items):
+                nxt = []
+                for s0 in live:
+                    for s2, o in outcomes_of(x, idx, s0):
+                        if o is None:
+                            nxt.append(s2)
+                        else:
+                            results.append((s2, o))
+                live = nxt
+                if len(live) + len(results) > 512:
+                    raise Unsupported("too many paths in " + which)
+                if not live:
+                    break
+            results.extend((s0, OPT_NONE) for s0 in live)
+        if not results:
+            raise Unsupported("%s: no feasible outcome" % which)
+        return results
 
     @reg("Iterator::map")
     def it_map(I, st, args, info):
@@ -1324,6 +1555,244 @@ def register(I):
     def drop(I, st, args, info):
         return ()
 
+
+    # ----------------------------------------------------------------- batch 2: further std surface met in seeded changes
+    @reg("<impl [T]>::contains", "Vec::contains")
+    def slice_contains(I, st, args, info):
+        def f(x):
+            return b_or(*[struct_eq(I, e, args[1], st) for e in seq_of(I, x, st)])
+        return umap(f, deref_all(I, args[0], st))
+
+    @reg("<impl [T]>::get")
+    def slice_get(I, st, args, info):
+        def f(x):
+            s_ = seq_of(I, x, st)
+            i = args[1]
+            if isinstance(i, int):
+                return opt_some(ValRef(s_[i])) if i < len(s_) else OPT_NONE
+            alts = [(i == z3.BitVecVal(k, i.size()), opt_some(ValRef(e))) for k, e in enumerate(s_)]
+            alts.append((z3.UGE(i, z3.BitVecVal(len(s_), i.size())), OPT_NONE))
+            return merge_many(alts)
+        return umap(f, deref_all(I, args[0], st))
+
+    @reg("<impl [T]>::to_vec")
+    def slice_to_vec(I, st, args, info):
+        return umap(lambda x: VecV(tuple(seq_of(I, x, st))), deref_all(I, args[0], st))
+
+    def int_ty(info):
+        m = re.search(r"<impl ([ui]\d+|usize|isize)>", info.path.text)
+        if not m:
+            raise Unsupported("integer method on unknown type: " + info.path.text[:80])
+        return m.group(1), _interp.INT_TYPES[m.group(1)]
+
+    def bit_scan(which):
+        def h(I, st, args, info):
+            ty, w = int_ty(info)
+            def f(x):
+                if isinstance(x, int):
+                    x &= (1 << w) - 1
+                    if which == "count_ones":
+                        return bin(x).count("1")
+                    if x == 0:
+                        return w
+                    if which == "trailing_zeros":
+                        return (x & -x).bit_length() - 1
+                    return w - x.bit_length()
+                if which == "count_ones":
+                    acc = z3.BitVecVal(0, 32)
+                    for k in range(w):
+                        acc = acc + z3.ZeroExt(31, z3.Extract(k, k, x))
+                    return acc
+                r = z3.BitVecVal(w, 32)
+                order = range(w - 1, -1, -1) if which == "trailing_zeros" else range(w)
+                for k in order:
+                    # trailing: the lowest set bit wins (scanned last); leading: the highest set bit wins
+                    val = k if which == "trailing_zeros" else w - 1 - k
+                    r = z3.If(z3.Extract(k, k, x) == 1, z3.BitVecVal(val, 32), r)
+                return r
+            return umap(f, deref_all(I, args[0], st))
+        return h
+    for ty_ in ("u8", "u16", "u32", "u64", "usize", "i32", "i64"):
+        for which in ("trailing_zeros", "leading_zeros", "count_ones"):
+            R["<impl %s>::%s" % (ty_, which)] = bit_scan(which)
+
+    def wrapping(opname):
+        def h(I, st, args, info):
+            ty, w = int_ty(info)
+            a, b = deref_all(I, args[0], st), deref_all(I, args[1], st)
+            r, ov = I.binop(opname + "WithOverflow", a, b, ty)
+            return r
+        return h
+
+    def saturating(opname):
+        def h(I, st, args, info):
+            ty, w = int_ty(info)
+            if ty[0] == "i":
+                raise Unsupported("signed saturating arithmetic")
+            a, b = deref_all(I, args[0], st), deref_all(I, args[1], st)
+            r, ov = I.binop(opname + "WithOverflow", a, b, ty)
+            sat = 0 if opname == "Sub" else (1 << w) - 1
+            if ov is True:
+                return sat
+            if ov is False:
+                return r
+            return z3.If(ov, z3.BitVecVal(sat, w), r if is_sym(r) else z3.BitVecVal(r, w))
+        return h
+
+    def overflowing(opname):
+        def h(I, st, args, info):
+            ty, w = int_ty(info)
+            a, b = deref_all(I, args[0], st), deref_all(I, args[1], st)
+            return tuple(I.binop(opname + "WithOverflow", a, b, ty))
+        return h
+    for ty_ in ("u8", "u16", "u32", "u64", "usize", "i32", "i64"):
+        for nm, opn in (("mul", "Mul"), ("add", "Add"), ("sub", "Sub")):
+            R["<impl %s>::wrapping_%s" % (ty_, nm)] = wrapping(opn)
+            R["<impl %s>::saturating_%s" % (ty_, nm)] = saturating(opn)
+            R["<impl %s>::overflowing_%s" % (ty_, nm)] = overflowing(opn)
+
+    @reg("Ord::min", "Ord::max", "cmp::min", "cmp::max")
+    def ord_min_max(I, st, args, info):
+        a, b = deref_all(I, args[0], st), deref_all(I, args[1], st)
+        want_min = info.path.names()[-1] == "min"
+        if isinstance(a, int) and isinstance(b, int):
+            return min(a, b) if want_min else max(a, b)
+        if not (is_scalar(a) and is_scalar(b)):
+            raise Unsupported("min/max on non-scalars")
+        m = re.search(r"<([ui]\d+|usize|isize) as", info.path.text) or re.search(r"::<([ui]\d+|usize|isize)>", info.path.text)
+        if not m:
+            raise Unsupported("min/max operand type: " + info.path.text[:80])
+        le = I.binop("Le", a, b, m.group(1))
+        w = _interp.INT_TYPES[m.group(1)]
+        A = a if is_sym(a) else z3.BitVecVal(a, w)
+        B = b if is_sym(b) else z3.BitVecVal(b, w)
+        return z3.If(le, A, B) if want_min else z3.If(le, B, A)
+
+    @reg("NonZero::new")
+    def nonzero_new(I, st, args, info):
+        v = args[0]
+        if isinstance(v, int):
+            return opt_some(Adt("NonZero", None, [v])) if v != 0 else OPT_NONE
+        if isinstance(v, Union):
+            return umap(lambda x: nonzero_new(I, st, [x], info), v)
+        z = v == z3.BitVecVal(0, v.size())
+        return merge_many([(b_not(z), opt_some(Adt("NonZero", None, [v]))), (z, OPT_NONE)])
+
+    @reg("NonZero::get")
+    def nonzero_get(I, st, args, info):
+        return umap(lambda x: x.fields[0], deref_all(I, args[0], st))
+
+    @reg("Option::filter")
+    def opt_filter(I, st, args, info):
+        outs = []
+        for g, x in alts_of(args[0]):
+            if g is not True and not I.feasible(st.pc, g):
+                continue
+            st2 = st.fork(g)
+            if x.variant != "Some":
+                outs.append((st2, x))
+                continue
+            for s3, r in I.call_value(args[1], [ValRef(x.fields[0])], st2):
+                if isinstance(r, Panic):
+                    outs.append((s3, r))
+                elif r is True or r is False:
+                    outs.append((s3, x if r else OPT_NONE))
+                else:
+                    outs.append((s3, merge_many([(r, x), (b_not(r), OPT_NONE)])))
+        return outs
+
+    @reg("Option::or")
+    def opt_or(I, st, args, info):
+        return merge_many([(g, x if x.variant == "Some" else args[1]) for g, x in alts_of(args[0])])
+
+    @reg("Option::or_else")
+    def opt_or_else(I, st, args, info):
+        outs = []
+        for g, x in alts_of(args[0]):
+            st2 = st.fork(g)
+            if x.variant == "Some":
+                outs.append((st2, x))
+            else:
+                outs.extend(I.call_value(args[1], [], st2))
+        return outs
+
+    @reg("Option::ok_or")
+    def opt_ok_or(I, st, args, info):
+        return merge_many([(g, res_ok(x.fields[0]) if x.variant == "Some" else res_err(args[1])) for g, x in alts_of(args[0])])
+
+    @reg("Option::ok_or_else")
+    def opt_ok_or_else(I, st, args, info):
+        outs = []
+        for g, x in alts_of(args[0]):
+            st2 = st.fork(g)
+            if x.variant == "Some":
+                outs.append((st2, res_ok(x.fields[0])))
+            else:
+                for s3, r in I.call_value(args[1], [], st2):
+                    outs.append((s3, r if isinstance(r, Panic) else res_err(r)))
+        return outs
+
+    @reg("Result::ok")
+    def res_to_ok(I, st, args, info):
+        return merge_many([(g, opt_some(x.fields[0]) if x.variant == "Ok" else OPT_NONE) for g, x in alts_of(args[0])])
+
+    @reg("Result::err")
+    def res_to_err(I, st, args, info):
+        return merge_many([(g, opt_some(x.fields[0]) if x.variant == "Err" else OPT_NONE) for g, x in alts_of(args[0])])
+
+    @reg("Result::is_ok")
+    def res_is_ok(I, st, args, info):
+        v = deref_all(I, args[0], st)
+        return b_or(*[g for g, x in alts_of(v) if x.variant == "Ok"])
+
+    @reg("Result::and_then")
+    def res_and_then(I, st, args, info):
+        return call_on_variant(I, st, args[0], ("Ok",), args[1], lambda r: r, lambda x: x)
+
+    @reg("Result::is_ok_and")
+    def res_is_ok_and(I, st, args, info):
+        return call_on_variant(I, st, args[0], ("Ok",), args[1], lambda r: r, lambda x: False)
+
+    @reg("Result::is_err_and")
+    def res_is_err_and(I, st, args, info):
+        return call_on_variant(I, st, args[0], ("Err",), args[1], lambda r: r, lambda x: False)
+
+    @reg("Option::is_none_or")
+    def opt_is_none_or(I, st, args, info):
+        return call_on_variant(I, st, args[0], ("Some",), args[1], lambda r: r, lambda x: True)
+
+    @reg("Option::map_or")
+    def opt_map_or(I, st, args, info):
+        return call_on_variant(I, st, args[0], ("Some",), args[2], lambda r: r, lambda x: args[1])
+
+    @reg("Result::map_or")
+    def res_map_or(I, st, args, info):
+        return call_on_variant(I, st, args[0], ("Ok",), args[2], lambda r: r, lambda x: args[1])
+
+    @reg("Option::copied", "Option::cloned")
+    def opt_copied(I, st, args, info):
+        return merge_many([(g, opt_some(deref_all(I, x.fields[0], st)) if x.variant == "Some" else x) for g, x in alts_of(args[0])])
+
+    @reg("<impl str>::starts_with", "<impl str>::ends_with")
+    def str_starts_ends(I, st, args, info):
+        hay = list(as_str_items(I, args[0], st))
+        pv = deref_all(I, args[1], st)
+        front = info.path.names()[-1] == "starts_with"
+        if isinstance(pv, (Closure, FnItem)):
+            raise Unsupported("starts_with/ends_with with a predicate")
+        needle = [pv] if is_scalar(pv) else list(as_str_items(I, pv, st))
+        if len(needle) > len(hay):
+            return False
+        part = hay[:len(needle)] if front else hay[len(hay) - len(needle):]
+        return b_and(*[chr_eq(c, n) if isinstance(n, int) else (c == n if isinstance(c, int) else c == n) for c, n in zip(part, needle)])
+
+    @reg("<impl str>::as_bytes")
+    def str_as_bytes(I, st, args, info):
+        items = list(as_str_items(I, args[0], st))
+        if all(isinstance(c, int) for c in items):
+            return SliceV(tuple("".join(map(chr, items)).encode("utf-8")))
+        raise Unsupported("as_bytes of symbolic text")
+
     for n in ("Option::unwrap", "Result::unwrap", "Option::expect", "Result::expect", "Option::unwrap_or", "Result::unwrap_or",
               "Option::is_none", "Option::is_some", "Result::is_err", "Option::as_ref", "Result::as_ref", "Result::or_else",
               "Result::map_err", "Result::map", "Option::map", "Option::and_then", "Option::is_some_and",
@@ -1345,11 +1814,66 @@ class UnorderedIter(IterV):
 
 
 class ByteLen:
-    """byte length of a non-empty string of symbolic code points: only `== 0` is decidable"""
-    __slots__ = ("n",)
+    """a byte count over symbolic text: the UTF-8 length of `items` (code points) plus a constant.  `== 0` is decided
+    syntactically when add == 0 (items is never empty); where it is used as a number (winnow `take`, slicing by byte
+    offsets, arithmetic) term() gives the exact value as a 64-bit term"""
+    __slots__ = ("n", "items", "add")
 
-    def __init__(self, n):
+    def __init__(self, n, items=None, add=0):
         self.n = n
+        self.items = items
+        self.add = add
+
+    def term(self):
+        if self.items is None:
+            raise Unsupported("byte length of symbolic text used as a number")
+        acc = z3.BitVecVal(self.add & ((1 << 64) - 1), 64)
+        for c in self.items:
+            acc = acc + utf8_width(c)
+        return z3.simplify(acc)
+
+
+def same_items(a, b):
+    return len(a) == len(b) and all((x is y) or (isinstance(x, int) and isinstance(y, int) and x == y) or
+                                    (is_sym(x) and is_sym(y) and x.eq(y)) for x, y in zip(a, b))
+
+
+def bytelen_binop(I, name, x, y, ty):
+    """arithmetic / comparison with a ByteLen operand -> result, or NotImplemented to continue on terms"""
+    base = name.replace("WithOverflow", "").replace("Unchecked", "")
+    wo = name.endswith("WithOverflow")
+    if base == "Sub" and isinstance(x, ByteLen) and isinstance(y, ByteLen) and x.items is not None and y.items is not None \
+            and x.add == 0 and y.add == 0 and len(y.items) <= len(x.items):
+        k = len(x.items) - len(y.items)
+        if same_items(x.items[k:], y.items):          # len(whole) - len(suffix) = len(prefix)
+            r = byte_len_of(x.items[:k])
+            return (r, False) if wo else r
+        if same_items(x.items[:len(y.items)], y.items):
+            r = byte_len_of(x.items[len(y.items):])
+            return (r, False) if wo else r
+    if base == "Add" and isinstance(x, ByteLen) and isinstance(y, int) and 0 <= y < (1 << 32) and x.items is not None:
+        r = ByteLen(x.n, x.items, x.add + y)
+        return (r, False) if wo else r
+    if base == "Add" and isinstance(y, ByteLen) and isinstance(x, int) and 0 <= x < (1 << 32) and y.items is not None:
+        r = ByteLen(y.n, y.items, y.add + x)
+        return (r, False) if wo else r
+    return NotImplemented
+
+
+def utf8_width(c):
+    if isinstance(c, int):
+        return z3.BitVecVal(len(chr(c).encode("utf-8")), 64)
+    one = lambda k: z3.BitVecVal(k, 64)
+    return z3.If(z3.ULT(c, 0x80), one(1), z3.If(z3.ULT(c, 0x800), one(2), z3.If(z3.ULT(c, 0x10000), one(3), one(4))))
+
+
+def byte_len_of(items):
+    items = tuple(items)
+    if len(items) == 0:
+        return 0
+    if all(isinstance(c, int) for c in items):
+        return len("".join(map(chr, items)).encode("utf-8"))
+    return ByteLen(len(items), items)
 
 
 class MapV:
